@@ -391,7 +391,7 @@ class HashWalk(proto.Interp):
 
 def check_hash(ctx, R):
     h = R['hash']
-    I = HashWalk(ctx.repo, unroll=2)
+    I = HashWalk(ctx.repo, unroll=ctx.bound(2, 4))
     outs = I.run(h)
     ctx.analysed['paths'] += len(outs)
     pth = h.params[0]
@@ -499,7 +499,7 @@ class SaveWalk(proto.Interp):
 
 def check_saver(ctx, R):
     sv = R['save']
-    I = SaveWalk(ctx.repo, unroll=2)
+    I = SaveWalk(ctx.repo, unroll=ctx.bound(2, 4))
     outs = I.run(sv)
     ctx.analysed['paths'] += len(outs)
     rp, pp = sv.params[0], sv.params[1]
